@@ -144,6 +144,9 @@ func runC13(res *lib.Result, tier string, seed int64, args []string) error {
 			}
 			m1 := mark()
 			c1 := pick() + m1
+			if len(decls)%5 == 1 {
+				c1 = "-5 is the minimum, " + c1 // a comment text that itself begins with a hyphen
+			}
 			if len(decls)%4 == 2 {
 				c1 += " 1-" // a comment that ends with a hyphen (and one that ends with two, below)
 			} else if len(decls)%4 == 3 {
